@@ -179,6 +179,7 @@ type Stats struct {
 	Forks         int
 	FeasQueries   int
 	UnknownFeas   int
+	FactPruned    int
 	AssertConst   int
 	AssertUnsat   int
 	Obligations   int
@@ -212,6 +213,7 @@ func (s *Stats) merge(o *Stats) {
 	s.Forks += o.Forks
 	s.FeasQueries += o.FeasQueries
 	s.UnknownFeas += o.UnknownFeas
+	s.FactPruned += o.FactPruned
 	s.AssertConst += o.AssertConst
 	s.AssertUnsat += o.AssertUnsat
 	s.Obligations += o.Obligations
